@@ -634,6 +634,8 @@ def run_seg(case, ctx):
     if n < 3:
         return ood("track with fewer than 3 fixes: N<2 candidates")
     tr = gen.make_track(pts)
+    if n % 3 == 1:
+        tr, _how = gen.derive(tr, (pts, kind))
     g = case["glob"]
     cost = _make_cost(case, g is not None)
     fn = seg.optimalSegmentation if kind == "seg" else sim.optimalSimplification
